@@ -198,28 +198,7 @@ def argv_of(opts, model_path=None):
 # ----------------------------------------------------------------------------------------
 # generation
 
-def _forward_references(rng, node):
-    """Re-target some atomic branches at ANY variable of the tree, so that a reference (possibly through an inverted
-    role) can precede the definition of its node (random_tree_node alone only refers backwards)."""
-    allvars = []
-
-    def collect(n):
-        allvars.append(n[0])
-        for _, t in n[1]:
-            if isinstance(t, tuple):
-                collect(t)
-    collect(node)
-
-    def rebuild(n):
-        bs = []
-        for r, t in n[1]:
-            if isinstance(t, tuple):
-                t = rebuild(t)
-            elif r != '/' and rng.random() < .3:
-                t = rng.choice(allvars)
-            bs.append((r, t))
-        return (n[0], bs)
-    return rebuild(node)
+_forward_references = gen.forward_references
 
 
 def gen_stream(rng, model_name, canonicalize=False):
